@@ -150,9 +150,7 @@ func Parse(src string, ic Interceptors) (*Pattern, error) {
 			j = len(src) - i
 		}
 		lit := src[i : i+j]
-		if strings.ContainsRune(lit, '}') {
-			return nil, fmt.Errorf("unbalanced")
-		}
+		// a '}' outside a parameter is ordinary literal text (mux and CheckSyntax take it as such)
 		p.Tokens = append(p.Tokens, Token{Kind: Lit, Text: lit})
 		lastParam = false
 		i += j
